@@ -58,6 +58,7 @@ type Src struct {
 		rev int
 	}
 	Box   ext.Box
+	PSame *Holder
 	W     Wire
 	_     int
 	Stamp struct{ Sec int64 }
@@ -96,6 +97,7 @@ type Dst struct {
 		owner string
 	}
 	Box   ext.Box2
+	PSame *Holder
 	Label Tag
 	W     WireX
 	_     int
